@@ -24,7 +24,7 @@ theorem entryEnv_eq_bind : ∀ (ctx : Core.Ctx) (args : List (BitVec 64)),
     rw [entryEnv_eq_bind bs as (fun b' hb' => h b' (by simp [hb']))]
 
 theorem vrelL_ints {G : Fun.Term → Prop} {q : Core.Prog} (n : Nat) : ∀ (args : List (BitVec 64)),
-    VRelL G q n (args.map .int) (args.map .int)
+    VRelL G p q n (args.map .int) (args.map .int)
   | [] => .nil _
   | a :: as => .cons (.int _ a) (vrelL_ints n as)
 
@@ -34,13 +34,15 @@ theorem tfv_main_cont (x : Core.Ident) (τ : Core.Ty) :
 
 /-- the two runs start in related states (or the Fun run is stuck at once: no `main`, wrong number
 of arguments) -/
+
 theorem sem_init {p : Fun.CheckedProgram} {q : Core.Prog} (hc : compileProg p = .ok q)
-    (hp : progOk p = true) (hq : coreClosed q = true) (args : List (BitVec 64)) :
+    (hp : progOk p = true) (hq : coreClosed q = true) (hpm : Typed.ProgM p)
+    (args : List (BitVec 64)) :
     (∀ n, (Fun.run p args n).out = [] ∧ ¬ Finished (Fun.run p args n).res ∧
       (Fun.run p args n).res ≠ .outOfFuel) ∨
     ∃ s S, (∀ n, Fun.run p args n = Fun.runFrom p n s []) ∧
-      (∀ m, Core.run q args m = Core.stepN q m S) ∧ S.out = [] ∧ R p q s S := by
-  have X := ctx_of_compileProg hc hp hq
+      (∀ m, Core.run q args m = Core.stepN q m S) ∧ S.out = [] ∧ RT p q s S := by
+  have X := ctx_of_compileProg hc hp hq hpm
   obtain ⟨hdefsok, hnd, hmainprd⟩ := progOk_facts hp
   obtain ⟨hqc, hdefs⟩ := compileProg_defs hc
   unfold Fun.run Fun.initState
@@ -92,22 +94,40 @@ theorem sem_init {p : Fun.CheckedProgram} {q : Core.Prog} (hc : compileProg p = 
         obtain ⟨b', hb', e⟩ := X.closed D hD y hy
         rw [hDc] at hb'
         exact absurd e (hne b' hb')
+      -- the initial state is typed
+      have hT : STM p (.eval d.body env []) := by
+        obtain ⟨htys, hret⟩ := progOk_mainTys hp d hdm hname
+        have hsig : ∀ b ∈ d.ctx, b.chi = .prd ∧ b.ty = .i64 := fun b hb =>
+          ⟨hmainprd d hdm hname b hb, htys b hb⟩
+        have hlen : args.length = d.ctx.length := by
+          have := bindAll_length _ _ _ _ hb
+          simpa using this.symm
+        obtain ⟨s0, hs0, hT0⟩ := initStateM_typed hpm hf hsig hret args hlen
+        simp only [Fun.initState, hf, hb, Except.ok.injEq] at hs0
+        subst hs0
+        exact hT0
+      have hτ' : Core.isCodata q.codataTypes τ = false := by
+        obtain ⟨τb, h1, rfl⟩ := hτ
+        obtain ⟨τ2, h2, h3⟩ := X.kind hT
+        rw [h1] at h2; cases h2
+        exact h3
       have hR : R p q (.eval d.body env []) ⟨D.body, ρ, [], 0⟩ :=
         SRel.eval (ρ0 := ρ) hgood hcomp henv
           (.mk (cv := .mutilde ρ ⟨x0, 0⟩ (.exit (.var .prd ⟨x0, 0⟩ τ) τ)) rfl .main trivial
-            (by rw [tfv_main_cont]; intro b hb; simp at hb) hτ)
+            (by rw [tfv_main_cont]; intro b hb; simp at hb) hτ')
           hbd (.refl _ _)
-      exact .inr ⟨_, _, fun n => rfl, fun m => rfl, rfl, hR⟩
+      exact .inr ⟨_, _, fun n => rfl, fun m => rfl, rfl, hR, hT⟩
 
 /-- the forward half for the two machines' own behaviour types -/
 theorem sem_forward {p : Fun.CheckedProgram} {q : Core.Prog} (hc : compileProg p = .ok q)
-    (hp : progOk p = true) (hq : coreClosed q = true) (args : List (BitVec 64)) :
+    (hp : progOk p = true) (hq : coreClosed q = true) (hpm : Typed.ProgM p)
+    (args : List (BitVec 64)) :
     (∀ n, Finished (Fun.run p args n).res →
       ∃ m r', Core.run q args m = ⟨(Fun.run p args n).out, r'⟩ ∧ ResMatch (Fun.run p args n).res r') ∧
     (∀ n, ∃ m, (Fun.run p args n).out <+: (Core.run q args m).out) := by
-  rcases sem_init hc hp hq args with h | ⟨s, S, h1, h2, h3, hR⟩
+  rcases sem_init hc hp hq hpm args with h | ⟨s, S, h1, h2, h3, hR⟩
   · exact ⟨fun n hf => absurd hf (h n).2.1, fun n => ⟨0, by rw [(h n).1]; exact List.nil_prefix⟩⟩
-  · have X := ctx_of_compileProg hc hp hq
+  · have X := ctx_of_compileProg hc hp hq hpm
     have hfw := fun n => chunkSim_forward (eval_sim X) n s S [] hR (by rw [h3]; rfl)
     refine ⟨fun n => ?_, fun n => ?_⟩
     · rw [h1 n]
@@ -125,16 +145,16 @@ def FunSafe (p : Fun.CheckedProgram) (args : List (BitVec 64)) : Prop :=
 /-- the backward half, for runs of the Fun machine that do not get stuck for a reason other than an
 arithmetic fault -/
 theorem sem_backward {p : Fun.CheckedProgram} {q : Core.Prog} (hc : compileProg p = .ok q)
-    (hp : progOk p = true) (hq : coreClosed q = true) (args : List (BitVec 64))
-    (hsafe : FunSafe p args) :
+    (hp : progOk p = true) (hq : coreClosed q = true) (hpm : Typed.ProgM p)
+    (args : List (BitVec 64)) (hsafe : FunSafe p args) :
     (∀ m, (Core.run q args m).res ≠ .outOfFuel →
       ∃ n r, Fun.run p args n = ⟨(Core.run q args m).out, r⟩ ∧ ResMatch r (Core.run q args m).res) ∧
     (∀ m, ∃ n, (Core.run q args m).out <+: (Fun.run p args n).out) := by
-  rcases sem_init hc hp hq args with h | ⟨s, S, h1, h2, h3, hR⟩
+  rcases sem_init hc hp hq hpm args with h | ⟨s, S, h1, h2, h3, hR⟩
   · rcases hsafe 0 with h0 | h0
     · exact absurd h0 (h 0).2.2
     · exact absurd h0 (h 0).2.1
-  · have X := ctx_of_compileProg hc hp hq
+  · have X := ctx_of_compileProg hc hp hq hpm
     have hs : Safe p s [] := fun n => by rw [← h1 n]; exact hsafe n
     have hbw := fun m => chunkSim_backward (eval_sim X) m _ s S [] rfl hR (by rw [h3]; rfl) hs
     refine ⟨fun m => ?_, fun m => ?_⟩
